@@ -677,12 +677,15 @@ def check_generator(ctx):
     C = 'LinkCommandGenerator'
     ir = ctx.ir(C, 'usb3.link.command')
     fsm = ctx.the_fsm(ir)
-    lo = [a for a in ir.assigns if a.lhs.canon() == 'self.source.payload[0:16]']
-    ctx.need(len(lo) == 1 and isinstance(lo[0].rhs, E) and lo[0].rhs.op == 'sig' and lo[0].state is not None, 'the link command word driver')
-    W, st = lo[0].rhs.canon(), q.state_of(lo[0])
-    sub = [a for a in ir.assigns if a.lhs.canon() == W + '[0:4]']
-    ok = len(sub) == 1 and not sub[0].guard and isinstance(sub[0].rhs, E) and sub[0].rhs.op == 'sig'
-    src = sub[0].rhs.canon() if ok else None
+    # what drives bits 0..15 of the output word, and bits 0..3 of that -- whether written slice by slice or through Cat()
+    lob = [(a, ex) for a, ex in q.bits_drivers(ir, 'self.source.payload', 0, 16) if ex is not None and ex.op != 'const']
+    ctx.need(len(lob) == 1 and lob[0][1].op == 'sig' and lob[0][0].state is not None, 'the link command word driver')
+    lo = [lob[0][0]]
+    W, st = lob[0][1].canon(), q.state_of(lo[0])
+    subb = [(a, ex) for a, ex in q.bits_drivers(ir, W, 0, 4) if ex is not None]
+    sub = [a for a, _ in subb]
+    ok = len(subb) == 1 and not sub[0].guard and subb[0][1].op == 'sig'
+    src = subb[0][1].canon() if ok else None
     if ok and src != 'self.subtype':
         ds = ir.drivers(src, exact=True)
         ok = bool(ds) and all(q.rhs_canon(a) == 'self.subtype' and q.has(a, 'self.generate') for a in ds)
